@@ -1279,7 +1279,10 @@ class KafkaClient(object):
                 if leader is None:
                     raise CoordinatorNotAvailable("Coordinator not available for group: %s" % (consumer_group))
 
-            payloads_by_broker[leader].append(payload)
+            # Group by node ID, not by the whole metadata entry: a lookup for
+            # a later payload may reload the metadata and learn a new address
+            # for a broker that an earlier payload already resolved.
+            payloads_by_broker[leader.node_id].append(payload)
             original_keys.append((payload.topic, payload.partition))
 
         # Accumulate the responses in a dictionary
@@ -1303,8 +1306,8 @@ class KafkaClient(object):
         # and the payloads that go along with them
         payloadsList = []
         # For each broker, send the list of request payloads,
-        for broker_meta, payloads in payloads_by_broker.items():
-            broker = self._get_brokerclient(broker_meta.node_id)
+        for node_id, payloads in payloads_by_broker.items():
+            broker = self._get_brokerclient(node_id)
             requestId = self._next_id()
             request = encoder_fn(
                 client_id=self._clientIdBytes,
